@@ -49,6 +49,8 @@ type kdScenario struct {
 	Delay    int      `json:"delay"`
 	Retry    bool     `json:"retry"`
 	NegDelay bool     `json:"negdelay,omitempty"` // the release delay is passed as a negative duration
+	SlowExit bool     `json:"slowexit,omitempty"` // instances return only once the operations are used up (long exit latency)
+	BoZero   bool     `json:"bozero,omitempty"`   // the harness's backoff policy returns 0 ("retry at once"), a legal interval
 	BoExp    bool     `json:"boexp,omitempty"`    // retry with the library's own exponential backoff (WithRetry) instead of the harness's constant one
 	NK       int      `json:"nk"`
 	NCtx     int      `json:"nctx"`
@@ -75,6 +77,9 @@ type kdBackoff struct {
 
 func (b *kdBackoff) NextBackOff() time.Duration {
 	b.d.x.Log(trace.E{"ev": "bo", "k": b.k, "op": "next"})
+	if b.d.sc.BoZero {
+		return 0 // the monitor's retry deadline is an upper bound (quiescence + BackoffUnit): earlier is fine
+	}
 	return 10 * kdUnit
 }
 func (b *kdBackoff) Reset() { b.d.x.Log(trace.E{"ev": "bo", "k": b.k, "op": "reset"}) }
@@ -336,6 +341,13 @@ func (d *kdDriver) doOp(o kdOp) {
 		x.Log(trace.E{"ev": "tick", "d": o.D})
 		x.Tick(time.Duration(o.D) * kdUnit)
 		return
+	case "ctxcancel":
+		// the application cancels context C itself ("in place"): if it is the container's context the
+		// container keeps it; running instances see their context end but may be slow to return
+		x.Log(trace.E{"ev": "ctxcancel", "c": o.C})
+		d.cancels[o.C-1]()
+		d.snap(true)
+		return
 	case "out":
 		if in := d.liveInst(o.K); in != nil {
 			x.Resume(in.park, o.Out)
@@ -364,6 +376,7 @@ func genKeyed(x *sched.Exec) kdScenario {
 	sc.Retry = r.Intn(2) == 0
 	sc.BoExp = sc.Retry && r.Intn(3) == 0
 	sc.NegDelay = sc.Delay != 0 && r.Intn(3) == 0
+	sc.BoZero = sc.Retry && !sc.BoExp && r.Intn(4) == 0
 	seq := sc.Mode == "seq"
 	if seq {
 		sc.MaxOps = 8 + r.Intn(8)
@@ -396,6 +409,20 @@ func genKeyed(x *sched.Exec) kdScenario {
 	if sc.Delay != 0 || sc.Retry {
 		ws = append(ws, w{4, tick})
 	}
+	// the application cancels a context itself ("in place": the container keeps it).
+	// (not with a zero backoff: a retry under a context that has ended fails without entering the
+	// routine, so "retry at once" is then a loop that needs no time to pass;
+	// without a release delay only: whether a routine that returned because its context ended
+	// "has failed" -- removal at once or after the delay -- is not something the statement settles)
+	focus := strings.Contains(Opt, "ctxc") // mode "ctxc": every scenario is of this kind
+	if focus {
+		sc.Delay, sc.NegDelay, sc.BoZero = 0, false, false
+	}
+	ctxc := sc.Delay == 0 && !sc.BoZero && (focus || r.Intn(2) == 0)
+	sc.SlowExit = !seq && r.Intn(3) == 0
+	if ctxc {
+		ws = append(ws, w{2, func() kdOp { return kdOp{Op: "ctxcancel", C: 1 + r.Intn(sc.NCtx)} }})
+	}
 	if sc.RC {
 		ws = append(ws, w{4, func() kdOp { return kdOp{Op: "addref", K: key()} }},
 			w{4, func() kdOp { return kdOp{Op: "release", Ref: 1 + r.Intn(4)} }},
@@ -423,7 +450,14 @@ func genKeyed(x *sched.Exec) kdScenario {
 	} else {
 		sc.Alphabet = append(sc.Alphabet, kdOp{Op: "setkey", K: 1, S: true}, kdOp{Op: "removekey", K: 1})
 	}
-	for n := 7 + r.Intn(6); n > 0; n-- {
+	nrand := 7 + r.Intn(6)
+	if ctxc && (focus || r.Intn(2) == 0) {
+		// a small alphabet around one key whose context ends while its instance is slow to return
+		sc.Alphabet = append(sc.Alphabet, kdOp{Op: "ctxcancel", C: 1}, kdOp{Op: "setctx", C: 2, R: true},
+			kdOp{Op: "setctx", C: 2}, kdOp{Op: "restart", K: 1})
+		nrand = r.Intn(3)
+	}
+	for n := nrand; n > 0; n-- {
 		p := r.Intn(tot)
 		for _, e := range ws {
 			if p < e.n {
@@ -658,7 +692,7 @@ func (d *kdDriver) Run(x *sched.Exec, raw json.RawMessage) json.RawMessage {
 	}
 	moves := func() []sched.Move {
 		ms := d.grantMoves()
-		if !seq {
+		if !seq && !(sc.SlowExit && d.nops < sc.MaxOps) {
 			ms = append(ms, d.outMoves(false)...)
 		}
 		if d.nops >= sc.MaxOps {
